@@ -239,6 +239,9 @@ def generate(tier):
                 # Index is not a valid pattern for a tuple variant: rustc rejects the item (E0532).  Macro-level accept, so the
                 # item is kept for mode A only (observed quirk; the enum is not field-less, hence outside C10 as well).
                 cs.add(d, cs.enum(d, insert_at(base, tup('Data', ['u8'], [('disabled',)]), 'middle')), 'R2-disabled-data-variant-modeA-only', None)
+                cs.items[-1]['rustc_rejects'] = True
+                cs.add(d, cs.enum(d, insert_at(base, named('Data', [('x', 'u8')], [('disabled',)]), 'last')), 'R2-disabled-data-variant-modeA-only', None)
+                cs.items[-1]['rustc_rejects'] = True
                 cs.add(d, cs.enum(d, [unit('OnlyOff', [('disabled',)])]), 'R2-no-enabled-variant', None)
         # R4 repeated single-use attributes, enum level
         for kind, val in (('serialize_all', 'snake_case'), ('ascii_case_insensitive', None), ('use_phf', None), ('prefix', 'p'),
